@@ -215,6 +215,34 @@ def r3_children(m):
         if not ok:
             r.fail("%s|store|%s" % (f.qualname, attr), "%s stores into .%s after construction (`%s`) something that is not a "
                    "sub-sequence of the node's own items: nodes added there get no parent" % (f.qualname, attr, A.text(n)[:60]), m.loc(f, n))
+    # in-place changes of a constructed node's child container (slice assignment, insert/append/extend on `<node>.content` /
+    # `<node>.items`): Base.__new__ has already run _set_parent, so nodes added this way have no parent
+    n_sites = 0
+    for (path, q), f in sorted(m.funcs.items()):
+        if "/tests/" in path or "/two/" not in path:
+            continue
+        for n in A.body_nodes(f.node):
+            tgt = None
+            if isinstance(n, (ast.Assign, ast.AugAssign)):
+                for t in (n.targets if isinstance(n, ast.Assign) else [n.target]):
+                    if isinstance(t, ast.Subscript) and isinstance(t.value, ast.Attribute) and t.value.attr in ("items", "content"):
+                        tgt = t.value
+            elif isinstance(n, ast.Call) and isinstance(n.func, ast.Attribute) and n.func.attr in ("append", "insert", "extend") \
+                    and isinstance(n.func.value, ast.Attribute) and n.func.value.attr in ("items", "content"):
+                tgt = n.func.value
+            if tgt is None:
+                continue
+            n_sites += 1
+            r.instances += 1
+            owner = A.text(tgt.value)
+            reparented = any(isinstance(c, ast.Call) and A.text(c.func).endswith("_set_parent") and c.args and A.text(c.args[0]) == owner
+                             and c.lineno > n.lineno for c in A.calls(f.node))
+            r.ob(reparented, "%s: `%s` followed by _set_parent(%s, ...)" % (q, A.text(n)[:50], owner))
+            if not reparented:
+                r.fail("%s|in-place|%s" % (q, A.text(tgt)), "%s changes `%s` of an already constructed node in place (`%s`) and does not re-run "
+                       "_set_parent on it: the nodes spliced in are children without a parent (get_root() on them returns the node itself)"
+                       % (q, A.text(tgt), A.text(n)[:60]), m.loc(f, n))
+    r.notes.append("in-place changes of a node's child container found: %d" % n_sites)
     return r
 
 
@@ -445,6 +473,13 @@ def r6_raw_construction(m):
 
 def run(m, tier):
     results = [r1_parent_owner(m), r2_parent_on_construction(m), r3_children(m), r4_walk(m), r6_raw_construction(m)]
+    from rules import C18
+    r7 = C18.r5_no_back_reference(m)
+    r7.rule = "C10.R7"
+    r7.title = "every reader item is delivered once: the reader keeps no item it has handed out (a replayed item returns the nodes cached on it, so one node object would occur twice in the tree) (shared with C18.R5)"
+    for f_ in r7.findings:
+        f_.rule = "C10.R7"
+    results.append(r7)
     from rules import shapes_rules
     results += shapes_rules.c10_rules(m)
     expl = ("Decides structural clauses of C10: who assigns .parent; Base.__new__ parents the children of every node it builds before "
